@@ -206,6 +206,43 @@ fn descend<'a>(root: pelite::resources::Directory<'a>, path: &str) -> Option<pel
 	Some(d)
 }
 
+/// `iter <v32|v64> module -`: the unsafe constructor `PeView::module(base)` (an image already mapped at `base`) beside
+/// its documented equivalent `from_bytes(&bytes[..SizeOfImage]).set_base_address(base)`: same bytes, same base address,
+/// same address conversions and the same `get_proc_address` answers.  Only called when the buffer holds SizeOfImage
+/// bytes (the precondition of `module`); file kinds have no such constructor.
+pub trait ModuleTwin { fn module_twin(&self, bytes: &[u8]) -> String; }
+macro_rules! impl_module_twin { ($m:ident, $va:ty) => {
+	impl<'a> ModuleTwin for pelite::$m::PeView<'a> {
+		fn module_twin(&self, bytes: &[u8]) -> String {
+			use pelite::$m::{Pe, PeObject, PeView};
+			use pelite::$m::exports::GetProcAddress;
+			let soi = self.optional_header().SizeOfImage as usize;
+			if soi > bytes.len() || soi == 0 { return "ok n=0 deque_same=1 fused=1 twin_same=1 skipped".to_string(); }
+			let m = unsafe { PeView::module(bytes.as_ptr()) };
+			let t = match PeView::from_bytes(&bytes[..soi]) { Ok(t) => t.set_base_address(bytes.as_ptr() as usize as $va), Err(_) => return "ok n=0 deque_same=1 fused=1 twin_same=1 skipped".to_string() };
+			let mut same = m.image().as_ptr() == t.image().as_ptr() && m.image().len() == t.image().len() && m.image_base() == t.image_base();
+			for r in [1u32, 0x1000, (soi as u32).wrapping_sub(1), soi as u32] {
+				same &= format!("{:?}", m.rva_to_va(r)) == format!("{:?}", t.rva_to_va(r));
+				if let Ok(va) = t.rva_to_va(r) { same &= format!("{:?}", m.va_to_rva(va)) == format!("{:?}", t.va_to_rva(va)); }
+			}
+			let mut n = 0usize;
+			if let (Ok(bm), Ok(bt)) = (m.exports().and_then(|e| e.by()), t.exports().and_then(|e| e.by())) {
+				for (a, b) in bm.iter_names().zip(bt.iter_names()).take(16) {
+					if let (Ok(na), Ok(nb)) = (a.0, b.0) {
+						n += 1;
+						same &= format!("{:?}", m.get_proc_address(na)) == format!("{:?}", t.get_proc_address(nb));
+					}
+				}
+				for ord in 0..8u16 { same &= format!("{:?}", m.get_proc_address(bm.ordinal_base().wrapping_add(ord))) == format!("{:?}", t.get_proc_address(bt.ordinal_base().wrapping_add(ord))); }
+			}
+			format!("ok n={} deque_same=1 fused=1 twin_same={}", n, same as u8)
+		}
+	}
+	impl<'a> ModuleTwin for pelite::$m::PeFile<'a> { fn module_twin(&self, _bytes: &[u8]) -> String { "bad-op".to_string() } }
+} }
+impl_module_twin!(pe32, u32);
+impl_module_twin!(pe64, u64);
+
 pub fn dispatch(st: &mut State, fam: &str, rest: &str) -> Option<String> {
 	if fam != "iter" { return None; }
 	let a: Vec<&str> = rest.split(' ').collect();
@@ -235,6 +272,7 @@ pub fn dispatch(st: &mut State, fam: &str, rest: &str) -> Option<String> {
 		})
 	} else {
 		with_specific!(st, k, g, p => { match src {
+			"module" => p.module_twin(g.bytes()),
 			"imports" | "imports_into" => match p.imports() { Ok(i) => run(if src == "imports" { i.iter() } else { i.into_iter() }, |x| x.canon(g), de_img(), hist, want_n), Err(e) => er(e) },
 			"debug" | "debug_into" => match p.debug() { Ok(i) => run(if src == "debug" { i.iter() } else { i.into_iter() }, |x| x.canon(g), de_img(), hist, want_n), Err(e) => er(e) },
 			"int" | "desc_iat" => match p.imports() { Ok(i) => match i.iter().nth(if arg.is_empty() { 0 } else { num(arg) as usize }) {
